@@ -57,6 +57,15 @@ class Rule:
             if "examples" not in doc:
                 doc["examples"] = []
 
+            for doc_key in ("description", "examples"):
+                if not isinstance(doc[doc_key], list) or not all(
+                    isinstance(i, str) for i in doc[doc_key]
+                ):
+                    raise MalformedRuleSpec(
+                        f"Rule doc {doc_key!r} must be a list of strings, but found: "
+                        f"{doc[doc_key]!r}."
+                    )
+
             # strip final new lines:
             for idx, desc_i in enumerate(doc["description"]):
                 doc["description"][idx] = desc_i.strip()
